@@ -242,10 +242,10 @@ def instances(tier):
             for zero in (False, True):
                 inst.append(dict(label='pin[gap=%g,zones=%s%s]' % (gap, '/'.join(map(str, rf)), ',zero power' if zero else ''),
                                  body=body_pin, params={'gap': gap, 'r_frac': rf, 'zero_power': zero},
-                                 max_paths=600, max_depth=(4 if gap > 0 else 5) if tier == 'quick' else 8, timeout_ms=20000))
+                                 max_paths=600, max_depth=(4 if gap > 0 else 5) if tier == 'quick' else (4 if gap > 0 else 7), timeout_ms=20000))
             inst.append(dict(label='pin-closed-forms[gap=%g,zones=%s]' % (gap, '/'.join(map(str, rf))),
                              body=body_pin, params={'gap': gap, 'r_frac': rf, 'zero_power': False, 'closed_forms': True},
-                             max_paths=600, max_depth=(4 if gap > 0 else 5) if tier == 'quick' else 7, timeout_ms=30000))
+                             max_paths=600, max_depth=(4 if gap > 0 else 5) if tier == 'quick' else (4 if gap > 0 else 7), timeout_ms=30000))
     for zero in (False, True):
         inst.append(dict(label='pin[two pins,gap=0,zones=0.0/0.5%s]' % (',zero power' if zero else ''), body=body_pin,
                          params={'gap': 0.0, 'r_frac': (0.0, 0.5), 'zero_power': zero, 'npin': 2}, max_paths=600, max_depth=6, timeout_ms=20000))
@@ -268,7 +268,7 @@ def main():
                      'identity, film / clad / gap (conduction + radiation) / fuel-shell closed forms with the logged conductivity evaluations, '
                      'and the pin-adjacent coolant average are SMT queries.'),
         bounds={'fuel zones': '1..2 (quick) / 1..3, solid and annular', 'gap': '0 and 20 micron with radiation',
-                'iterations': 'fork depth 5 (quick) / 8 over all conductivity loops', 'pins': '1, and 2 (the second pin is the one under test)',
+                'iterations': 'fork depth 5 (4 with a gap) quick / 7 (4 with a gap) thorough over all conductivity loops', 'pins': '1, and 2 (the second pin is the one under test)',
                 'dz': 'symbolic for ordering / zero power / film; 0.0125 m in the closed-form instances (it enters only as q = q\' dz and cancels)'},
         outside=['"conductivity at the reported temperatures" is taken as: the mean of the evaluations at the outer temperature and at the '
                  'previous inner iterate, which differs from the reported inner temperature by at most atol (the loop exit condition); '
